@@ -41,7 +41,7 @@ def gen(rng, tier):
         items.append({'x': i + 1, 'kind': kind, 'gap': 0 if (burst and rng.random() < 0.9) else rng.choice([0, 0, 0, base / 2, base, base * 1.5, 0.001, 'pause'])})
     if burst:
         nworkers = rng.choice([1, 1, 2])
-    sc = {'b': b, 'w': w, 'nworkers': nworkers, 'items': items, 'delays': [rng.choice([0.002, 0.02, 0.3]) if burst else rng.choice([0, 0, 0.002, 0.02, 0.3])],
+    sc = {'b': b, 'w': w, 'nworkers': nworkers, 'items': items, 'delays': rng.choice([[0.002], [0.02], [0.3], [0.02, 0, 0, 0, 0, 0, 0], [0.3, 0, 0, 0, 0, 0, 0, 0, 0, 0, 0]]) if burst else [rng.choice([0, 0, 0.002, 0.02, 0.3])],
           'stream_threads': 2 if rng.random() < 0.15 else 0, 'final_pause': rng.random() < 0.5}
     if rng.random() < 0.35:
         good = [it['x'] for it in items if it['kind'] == 'x']
@@ -54,6 +54,17 @@ def gen(rng, tier):
         if good:
             sc['fail'] = {'xs': sorted(rng.sample(good, 1)), 'exc': 'ExcC'}
     cfg = swarm(rng, racy=0.2, line=0.3, max_time=800.0, max_steps=600_000)
+    if burst and nworkers == 1 and rng.random() < 0.4:
+        sc['prefill'] = True
+        if rng.random() < 0.5:
+            sc['stream_threads'] = 2
+            if sc['b'] == 2:
+                sc['b'] = 3
+    if burst and rng.random() < 0.6:
+        # collector meets a full hand-off buffer: hold single threads back for long stretches (the other side then runs through
+        # many get/put rounds before the held thread acts on what it saw)
+        cfg['p_starve'] = rng.choice([0.01, 0.03, 0.05, 0.1])
+        cfg['p_slowstart'] = rng.choice([0.0, 0.1, 0.3])
     return {'scenario': sc, 'sim': cfg}
 
 
@@ -71,6 +82,8 @@ def shrink(sc):
         yield dict(sc, nworkers=sc['nworkers'] - 1)
     if sc.get('stream_threads'):
         yield dict(sc, stream_threads=0)
+    if sc.get('prefill'):
+        yield dict(sc, prefill=False)
     if any(sc['delays']):
         yield dict(sc, delays=[0])
     for k in ('pre_fail', 'fail', 'pre'):
@@ -116,17 +129,44 @@ def run(sim, sc):
         kw['batch_size'] = b
         if b > 1:
             kw['batch_wait_time'] = w
+    put_t = {}
+    kinds = {}
+    uid_of = {}
+    prefill = bool(sc.get('prefill')) and sc['nworkers'] == 1
+
+    def put_item(it):
+        uid = 1000 + it['x']
+        uid_of[it['x']] = uid
+        x = it['x']
+        if it['kind'] != 'x':
+            try:
+                raise make_exc('KeyError', x)
+            except Exception as e:
+                x = RemoteException(e)
+            if it['kind'] == 'remote_exc':
+                x = pickle.loads(pickle.dumps(x))
+        kinds[uid] = it['kind']
+        put_t[uid] = sim.now
+        q_in.put((uid, x))
+
+    if prefill:
+        # the requests are already queued when the worker comes up (a server that starts with a backlog)
+        for it in sc['items']:
+            put_item(it)
     workers = []
+    outputs = {}  # uid -> [(t, y)]
     for i in range(sc['nworkers']):
         th = Thread(target=wc.run, name=f'worker-{i}', kwargs=dict(q_in=q_in, q_out=q_out, worker_index=i, **kw))
         th.start()
         name = q_out.get()
+        while isinstance(name, tuple):  # with a prefilled queue nothing can precede the init message, but be safe
+            outputs.setdefault(name[0], []).append((sim.now, name[1]))
+            name = q_out.get()
         if name is None:
             sim.violation('worker:init-failed', {})
             return {}
         workers.append(th)
 
-    outputs = {}  # uid -> [(t, y)]
     nones = [0]
     done = threading.Event()
 
@@ -148,10 +188,7 @@ def run(sim, sc):
 
     exact = sim.time_mode == 'exact' and not sim.line_p
     svc = max(sc['delays']) if sc['delays'] else 0
-    put_t = {}
-    kinds = {}
-    uid_of = {}
-    outstanding = 0
+    outstanding = len(sc['items']) if prefill else 0
 
     def quiesce(label):
         # generous bound valid in exact time: everything outstanding processed serially, each waiting its full batch wait
@@ -162,26 +199,14 @@ def run(sim, sc):
                 sim.violation('liveness:request-not-served-without-more-input' + (':lone' if len(put_t) == 1 else ''),
                               {'missing_uids': missing, 'at': label, 'b': b, 'w': w})
 
-    for it in sc['items']:
+    for it in ([] if prefill else sc['items']):
         g = it['gap']
         if g == 'pause':
             quiesce('pause')
             outstanding = 0
         elif g:
             time.sleep(g)
-        uid = 1000 + it['x']
-        uid_of[it['x']] = uid
-        x = it['x']
-        if it['kind'] != 'x':
-            try:
-                raise make_exc('KeyError', x)
-            except Exception as e:
-                x = RemoteException(e)
-            if it['kind'] == 'remote_exc':
-                x = pickle.loads(pickle.dumps(x))
-        kinds[uid] = it['kind']
-        put_t[uid] = sim.now
-        q_in.put((uid, x))
+        put_item(it)
         outstanding += 1
     if sc.get('final_pause'):
         quiesce('final')
